@@ -1,3 +1,569 @@
-/- C14: property theorems (stub — not built yet) -/
+import RSVerif.Lemmas.Checkpoint
+/-
+C14 — Resume picks its own source's newest checkpoint and reads what the sender wrote.
+Property theorems only (definitions: Model/Checkpoint, Spec/Checkpoint; helper lemmas: Lemmas/Checkpoint).
+
+`LoadRun exactMatch a st (r, st')`: a call of LoadCheckpoint for source address `a` against the target `st`
+may return `r` and leave the target as `st'` — for SOME iteration order of Go's `range` over the keyspace map in
+the scan loop and SOME order in ClearCheckpoint. Every theorem quantifies over all such runs, over all
+well-formed targets (`WF`; every state reachable by any history of sender groups of any sources, old-version
+groups, data traffic, single field writes/removals and clears is well-formed: `reachable_wf`).
+`exactMatch` is the matching of the tree with fixes/C14-exact-fields.patch; `pinnedMatch` is the pinned one.
+-/
 namespace RSVerif.Properties.C14
+open RSVerif RSVerif.Checkpoint RSVerif.Lemmas.Checkpoint
+
+/-! ### 0. facts regenerated from the source on every run -/
+
+/-- the sender `hset`s exactly `<source>-runid`, `<source>-version` (= FcvCheckpoint.CurrentVersion) and
+    `<source>-offset` — the names and the version value `applyBatch` is built from (in whatever program order) -/
+theorem sender_field_names :
+    (Generated.C14.ckptSenderHsets.all fun x =>
+      [(sep, Generated.C14.ckptRunId, "var"), (sep, Generated.C14.ckptVersion, "current-version"),
+       (sep, Generated.C14.ckptOffset, "var")].contains x) = true ∧
+    ([(sep, Generated.C14.ckptRunId, "var"), (sep, Generated.C14.ckptVersion, "current-version"),
+       (sep, Generated.C14.ckptOffset, "var")].all fun x => Generated.C14.ckptSenderHsets.contains x) = true := by decide
+
+/-- `ClearCheckpoint` deletes exactly `<source>-runid` and `<source>-offset` (in one or several `hdel`s) -/
+theorem clear_field_names (a : Bytes) (f : Bytes) :
+    f ∈ clearFields a ↔ f ∈ Generated.C14.ckptClearHdel.map (fun p => a ++ p.1 ++ p.2) := by
+  have h : (Generated.C14.ckptClearHdel.all fun x => [(sep, Generated.C14.ckptRunId), (sep, Generated.C14.ckptOffset)].contains x) = true ∧
+      ([(sep, Generated.C14.ckptRunId), (sep, Generated.C14.ckptOffset)].all fun x => Generated.C14.ckptClearHdel.contains x) = true := by
+    decide
+  simp only [List.all_eq_true, List.contains_iff_mem] at h
+  simp only [clearFields, runIdField, offsetField, List.mem_map]
+  constructor
+  · intro hf
+    simp only [List.mem_cons, List.not_mem_nil, or_false] at hf
+    rcases hf with e | e
+    · exact ⟨(sep, Generated.C14.ckptRunId), h.2 _ (by simp), by rw [e]⟩
+    · exact ⟨(sep, Generated.C14.ckptOffset), h.2 _ (by simp), by rw [e]⟩
+  · rintro ⟨p, hp, e⟩
+    have := h.1 p hp
+    simp only [List.mem_cons, List.not_mem_nil, or_false] at this
+    rcases this with e' | e' <;> subst e' <;> simp [← e]
+
+/-- the field names on the target are the ones existing checkpoints carry:
+    `<source>-offset`, `<source>-runid`, `<source>-version` (ASCII) -/
+theorem field_names_on_disk (a : Bytes) :
+    offsetField a = a ++ [45, 111, 102, 102, 115, 101, 116] ∧ runIdField a = a ++ [45, 114, 117, 110, 105, 100] ∧
+    versionField a = a ++ [45, 118, 101, 114, 115, 105, 111, 110] := by
+  simp [offsetField, runIdField, versionField, sep, Generated.C14.ckptOffset, Generated.C14.ckptRunId, Generated.C14.ckptVersion]
+
+/-- what the current release writes passes its own gate; a missing version field (= 0) does not -/
+theorem version_consts :
+    Generated.C14.fcvCheckpointCompatible ≤ Generated.C14.fcvCheckpointCurrent ∧ 0 < Generated.C14.fcvCheckpointCompatible ∧
+    Generated.C14.fcvCheckpointCurrent ≠ -1 := by decide
+
+/-- distinct sources, or distinct kinds, never share a field name (addresses that are prefixes of one another
+    included: no hypothesis on `a`, `b`) -/
+theorem field_names_injective (a b : Bytes) :
+    (offsetField a = offsetField b → a = b) ∧ (runIdField a = runIdField b → a = b) ∧
+    (versionField a = versionField b → a = b) ∧
+    offsetField a ≠ runIdField b ∧ offsetField a ≠ versionField b ∧ runIdField a ≠ versionField b :=
+  ⟨offsetField_inj, runIdField_inj, versionField_inj, offset_ne_runId a b, offset_ne_version a b, runId_ne_version a b⟩
+
+/-! ### 1. the states the theorems range over; the loader always has an outcome -/
+
+theorem reachable_wf (st : State) (h : Reachable st) : WF st := Lemmas.Checkpoint.reachable_wf st h
+
+/-- `ParseKeyspace` of MiniRedis' `INFO keyspace` is exactly the set of non-empty dbs -/
+theorem keyspace_parsed (st : State) (hwf : WF st) : parseKeyspace (infoKeyspace st) = .ok (keysOf st) :=
+  parseKeyspace_wf st hwf
+
+/-- every db holding a checkpoint hash is visited -/
+theorem checkpoint_dbs_listed (st : State) (d : Int) (h : hashOf st d ≠ []) : d ∈ keysOf st :=
+  mem_liveDbs_of_hash st d h
+
+theorem load_has_outcome (a : Bytes) (st : State) (hwf : WF st) : ∃ r, LoadRun exactMatch a st r :=
+  ⟨_, (loadRun_iff exactMatch a st hwf _).mpr ⟨keysOf st, keysOf st, List.Perm.refl _, List.Perm.refl _, rfl⟩⟩
+
+/-- on a real hash (distinct fields) the loop reads the three exactly-named fields, whatever the HGETALL order -/
+theorem fetch_reads_own_fields (a : Bytes) (h : Hash) (hwf : HashWF h) :
+    fetchCheckpoint exactMatch a h = ownCkpt a h := fetch_eq_ownCkpt a h hwf
+
+/-! ### 2. picks_max_own -/
+
+/-- Full generality (ties allowed). A successful load returns the greatest offset recorded for `a` across
+    ALL dbs (−1 if none), together with the run id and db of a checkpoint carrying that offset
+    (db −1 if that checkpoint has no run id). -/
+theorem picks_max_own (a : Bytes) (st st' : State) (hwf : WF st) (runid : Bytes) (off db : Int)
+    (h : LoadRun exactMatch a st (.ok runid off db, st')) :
+    (∀ x f, own a st x = some f → f.offset ≤ off) ∧ -1 ≤ off ∧
+    ((off = -1 ∧ runid = [] ∧ db = 0) ∨
+     (∃ x f, own a st x = some f ∧ f.offset = off ∧ off > -1 ∧ runid = f.runid ∧ db = reportedDb f x)) := by
+  obtain ⟨o1, o2, h1, _, e⟩ := (loadRun_iff exactMatch a st hwf _).mp h
+  unfold loadFrom at e
+  cases hs : scan exactMatch a st o1 Acc.init with
+  | none => rw [hs] at e; simp at e
+  | some acc =>
+    rw [hs] at e
+    simp only [] at e
+    split at e
+    · simp at e
+    · simp only [Prod.mk.injEq, Ret.ok.injEq] at e
+      obtain ⟨⟨hr, ho, hd⟩, _⟩ := e
+      obtain ⟨m1, m2, m3⟩ := scan_max exactMatch a st o1 Acc.init acc hs
+      simp only [Acc.init] at m1
+      refine ⟨?_, by omega, ?_⟩
+      · intro x f hx
+        by_cases hm : x ∈ keysOf st
+        · obtain ⟨g, hg, hle⟩ := m2 x (h1.mem_iff.mpr hm)
+          rw [fetch_own a st hwf, hx] at hg
+          cases hg; omega
+        · rw [own_outside a st x hm] at hx
+          cases hx; simp only; omega
+      · rcases m3 with m3 | ⟨x, _, f, hf, hacc, hgt⟩
+        · left
+          subst m3
+          simp only [Acc.init, unknownRunId] at hr ho hd
+          refine ⟨ho, hr, ?_⟩
+          rw [hd]; simp
+        · right
+          rw [fetch_own a st hwf] at hf
+          subst hacc
+          simp only [accOf, Acc.init] at hr ho hd hgt
+          exact ⟨x, f, hf, ho.symm, by omega, hr, by rw [hd]; rfl⟩
+
+/-- With a unique greatest offset (no ties) the returned tuple is exactly that checkpoint's. -/
+theorem picks_newest (a : Bytes) (st st' : State) (hwf : WF st) (d : Int) (f : Fetched)
+    (hn : Newest a st d f) (hv : ¬ Refused f) (r : Ret) (h : LoadRun exactMatch a st (r, st')) :
+    r = .ok f.runid f.offset (reportedDb f d) := by
+  obtain ⟨o2, _, e⟩ := run_newest a st hwf d f hn _ h
+  rw [if_neg hv] at e
+  exact (Prod.mk.inj e).1
+
+/-- Without ties the whole outcome (tuple and target afterwards) does not depend on Go's map order. -/
+theorem deterministic (a : Bytes) (st : State) (hwf : WF st) (hnt : NoTies a st) (r1 r2 : Ret × State)
+    (h1 : LoadRun exactMatch a st r1) (h2 : LoadRun exactMatch a st r2) : r1 = r2 := by
+  rcases trichotomy_all a st hnt with hu | hn | ⟨d, f, hn⟩
+  · rw [run_unreadable a st hwf hu r1 h1, run_unreadable a st hwf hu r2 h2]
+  · obtain ⟨o, ho, e1⟩ := run_none a st hwf hn r1 h1
+    obtain ⟨o', ho', e2⟩ := run_none a st hwf hn r2 h2
+    rw [e1, e2, clearAll_perm a 0 o o' st (ho.trans ho'.symm)]
+  · obtain ⟨o, ho, e1⟩ := run_newest a st hwf d f hn r1 h1
+    obtain ⟨o', ho', e2⟩ := run_newest a st hwf d f hn r2 h2
+    rw [e1, e2, clearAll_perm a _ o o' st (ho.trans ho'.symm)]
+
+/-! ### 3. ignores_other_sources -/
+
+/-- Two targets that agree on `a`'s three fields in every db — whatever else differs: other sources'
+    checkpoints (their addresses may extend or be prefixes of `a`, or contain the words offset/runid/version),
+    data, which dbs exist — make the loader return the same tuple. (`NoTies`: see `counterexample_tie`.) -/
+theorem ignores_other_sources (a : Bytes) (st st' : State) (hwf : WF st) (hwf' : WF st')
+    (hsame : SameOwn a st st') (hnt : NoTies a st) (r r' : Ret) (s s' : State)
+    (h : LoadRun exactMatch a st (r, s)) (h' : LoadRun exactMatch a st' (r', s')) : r = r' := by
+  rcases trichotomy_all a st hnt with hu | hn | ⟨d, f, hn⟩
+  · have e := run_unreadable a st hwf hu _ h
+    have e' := run_unreadable a st' hwf' (unreadable_sameOwn hsame hu) _ h'
+    rw [(Prod.mk.inj e).1, (Prod.mk.inj e').1]
+  · obtain ⟨_, _, e⟩ := run_none a st hwf hn _ h
+    obtain ⟨_, _, e'⟩ := run_none a st' hwf' (noCheckpoint_sameOwn hsame hn) _ h'
+    rw [(Prod.mk.inj e).1, (Prod.mk.inj e').1]
+  · obtain ⟨_, _, e⟩ := run_newest a st hwf d f hn _ h
+    obtain ⟨_, _, e'⟩ := run_newest a st' hwf' d f (newest_sameOwn hsame hn) _ h'
+    by_cases hv : Refused f
+    · rw [if_pos hv] at e e'; rw [(Prod.mk.inj e).1, (Prod.mk.inj e').1]
+    · rw [if_neg hv] at e e'; rw [(Prod.mk.inj e).1, (Prod.mk.inj e').1]
+
+/-- … and every event that is not a write/clear of `a`'s own fields keeps them: groups and clears of any other
+    source `b ≠ a` (no other condition on `b`), data traffic, writes/removals of any other field. -/
+theorem foreign_events_keep_own_fields (a : Bytes) (st : State) (ops : List Op) (hf : ∀ op ∈ ops, op.Foreign a) :
+    SameOwn a st (ops.foldl applyOp st) := by
+  induction ops generalizing st with
+  | nil => exact sameOwn_refl a st
+  | cons op rest ih =>
+    exact sameOwn_trans (foreign_op_sameOwn a st op (hf op (List.mem_cons_self ..)))
+      (ih _ fun o ho => hf o (List.mem_cons_of_mem _ ho))
+
+/-- the two combined: after any history of foreign events the loader answers as before -/
+theorem ignores_other_sources_history (a : Bytes) (st : State) (hwf : WF st) (ops : List Op)
+    (hv : ∀ op ∈ ops, op.Valid) (hf : ∀ op ∈ ops, op.Foreign a) (hnt : NoTies a st) (r r' : Ret) (s s' : State)
+    (h : LoadRun exactMatch a st (r, s)) (h' : LoadRun exactMatch a (ops.foldl applyOp st) (r', s')) : r = r' := by
+  have hwf' : WF (ops.foldl applyOp st) := by
+    clear h h' hnt hf
+    induction ops generalizing st with
+    | nil => exact hwf
+    | cons op rest ih =>
+      exact ih _ (wf_applyOp st op (hv op (List.mem_cons_self ..)) hwf) fun o ho => hv o (List.mem_cons_of_mem _ ho)
+  exact ignores_other_sources a st _ hwf hwf' (foreign_events_keep_own_fields a st ops hf) hnt r r' s s' h h'
+
+/-- conversely the loader leaves every field except `a`'s run id and offset alone — in particular all
+    fields of every other source -/
+theorem load_keeps_other_fields (a : Bytes) (st s : State) (hwf : WF st) (r : Ret)
+    (h : LoadRun exactMatch a st (r, s)) (d : Int) (g : Bytes) (hg : g ≠ runIdField a) (hg' : g ≠ offsetField a) :
+    fieldOf g (hashOf s d) = fieldOf g (hashOf st d) := by
+  obtain ⟨o1, o2, _, _, e⟩ := (loadRun_iff exactMatch a st hwf _).mp h
+  have hgc : g ∉ clearFields a := by simp [clearFields, hg, hg']
+  unfold loadFrom at e
+  split at e
+  · rw [(Prod.mk.inj e).2]
+  · split at e
+    · rw [(Prod.mk.inj e).2]
+    · rw [(Prod.mk.inj e).2]; exact fieldOf_clearAll_other a _ o2 st d g hgc
+
+theorem load_keeps_other_sources (a b : Bytes) (hab : b ≠ a) (st s : State) (hwf : WF st) (r : Ret)
+    (h : LoadRun exactMatch a st (r, s)) : SameOwn b st s := by
+  obtain ⟨h1, h2, h3⟩ := foreign_fields (a := b) (b := a) (fun e => hab e.symm)
+  apply sameOwn_of_fields
+  intro d g hg
+  exact (load_keeps_other_fields a st s hwf r h d g (fun e => h2 (e ▸ hg)) (fun e => h1 (e ▸ hg))).symm
+
+/-! ### 4. stale_removed -/
+
+/-- After a successful load: in every db other than the reported one `a`'s offset and run id are gone;
+    the reported db is untouched; keys, data counts and all other fields are untouched. -/
+theorem stale_removed (a : Bytes) (st s : State) (hwf : WF st) (runid : Bytes) (off db : Int)
+    (h : LoadRun exactMatch a st (.ok runid off db, s)) :
+    (∀ x, x ≠ db → fieldOf (offsetField a) (hashOf s x) = none ∧ fieldOf (runIdField a) (hashOf s x) = none) ∧
+    hashOf s db = hashOf st db ∧
+    s.map (fun p => (p.1, p.2.others)) = st.map (fun p => (p.1, p.2.others)) := by
+  obtain ⟨o1, o2, _, h2, e⟩ := (loadRun_iff exactMatch a st hwf _).mp h
+  unfold loadFrom at e
+  split at e
+  · simp at e
+  · split at e
+    · simp at e
+    · simp only [Prod.mk.injEq, Ret.ok.injEq] at e
+      obtain ⟨⟨_, _, hd⟩, hs⟩ := e
+      rw [← hd] at hs
+      subst hs
+      refine ⟨?_, ?_, ?_⟩
+      · intro x hx
+        rw [hashOf_clearAll]
+        by_cases hm : x ∈ keysOf st
+        · rw [if_pos ⟨hx, h2.mem_iff.mpr hm⟩, fieldOf_clearHash, fieldOf_clearHash]
+          simp [clearFields]
+        · have he := covers st x hm
+          split <;> simp [he, clearHash, fieldOf]
+      · rw [hashOf_clearAll, if_neg (by simp)]
+      · rw [clearAll_eq_map, List.map_map]
+        apply List.map_congr_left
+        intro p _
+        simp only [Function.comp, clearEntry]
+        split <;> rfl
+
+/-! ### 5. none ⇒ offset −1 -/
+
+/-- no usable checkpoint of `a` anywhere ⇒ ("", −1, 0): the caller starts a full sync -/
+theorem none_gives_minus_one (a : Bytes) (st s : State) (hwf : WF st) (hn : NoCheckpoint a st) (r : Ret)
+    (h : LoadRun exactMatch a st (r, s)) : r = .ok [] (-1) 0 := by
+  obtain ⟨_, _, e⟩ := run_none a st hwf hn _ h
+  exact (Prod.mk.inj e).1
+
+/-- in particular when `a` has no field at all on the target -/
+theorem no_fields_gives_minus_one (a : Bytes) (st s : State) (hwf : WF st)
+    (hno : ∀ d g, g ∈ ownFields a → fieldOf g (hashOf st d) = none) (r : Ret)
+    (h : LoadRun exactMatch a st (r, s)) : r = .ok [] (-1) 0 := by
+  apply none_gives_minus_one a st s hwf _ r h
+  intro d
+  have e1 := hno d (offsetField a) (by simp [ownFields])
+  have e2 := hno d (runIdField a) (by simp [ownFields])
+  have e3 := hno d (versionField a) (by simp [ownFields])
+  unfold own ownCkpt
+  split
+  · exact ⟨_, rfl, by simp⟩
+  · simp only [e1, e2, e3, numField]
+    exact ⟨_, rfl, by simp⟩
+
+/-! ### 6. missing_runid ⇒ ("?", no db) -/
+
+theorem runid_default (a : Bytes) (st : State) (d : Int) (f : Fetched) (ho : own a st d = some f)
+    (hne : hashOf st d ≠ []) (hmiss : fieldOf (runIdField a) (hashOf st d) = none) : f.runid = unknownRunId := by
+  unfold own ownCkpt at ho
+  have : (hashOf st d).isEmpty = false := by
+    cases hh : hashOf st d with
+    | nil => exact absurd hh hne
+    | cons _ _ => rfl
+  rw [this] at ho
+  simp only [Bool.false_eq_true, if_false, hmiss] at ho
+  split at ho
+  · simp only [Option.some.injEq] at ho; rw [← ho]; rfl
+  · cases ho
+
+/-- the newest checkpoint has no run id ⇒ ("?", its offset, −1), and EVERY db is cleared, so that the
+    full sync that follows starts from a clean slate -/
+theorem missing_runid (a : Bytes) (st s : State) (hwf : WF st) (d : Int) (f : Fetched) (hn : Newest a st d f)
+    (hq : f.runid = unknownRunId) (hv : ¬ Refused f) (r : Ret) (h : LoadRun exactMatch a st (r, s)) :
+    r = .ok unknownRunId f.offset (-1) ∧
+    ∀ x, fieldOf (offsetField a) (hashOf s x) = none ∧ fieldOf (runIdField a) (hashOf s x) = none := by
+  have hr := picks_newest a st s hwf d f hn hv r h
+  have hdb : reportedDb f d = -1 := by simp [reportedDb, hq]
+  rw [hdb, hq] at hr
+  refine ⟨hr, ?_⟩
+  subst hr
+  intro x
+  by_cases hx : x = -1
+  · subst hx
+    have : (-1 : Int) ∉ keysOf st := by
+      intro hm
+      obtain ⟨p, hp, e⟩ := List.mem_map.mp hm
+      have := (hwf.range p (List.mem_filter.mp hp).1).1
+      omega
+    have he : hashOf s (-1) = hashOf st (-1) := (stale_removed a st s hwf _ _ _ h).2.1
+    rw [he, covers st (-1) this]
+    simp [fieldOf]
+  · exact (stale_removed a st s hwf _ _ _ h).1 x hx
+
+/-! ### 7. old_version_refused -/
+
+/-- the newest checkpoint carries a version below the compatible one ⇒ error, target untouched -/
+theorem old_version_refused (a : Bytes) (st s : State) (hwf : WF st) (d : Int) (f : Fetched) (hn : Newest a st d f)
+    (hv : Refused f) (r : Ret) (h : LoadRun exactMatch a st (r, s)) : r = .err ∧ s = st := by
+  obtain ⟨_, _, e⟩ := run_newest a st hwf d f hn _ h
+  rw [if_pos hv] at e
+  exact ⟨(Prod.mk.inj e).1, (Prod.mk.inj e).2⟩
+
+/-- a checkpoint written before versions existed (no version field) is refused -/
+theorem unversioned_refused (f : Fetched) (h : f.version = 0) : Refused f := by
+  unfold Refused; rw [h]; decide
+
+/-! ### 8. writer_reader_agree -/
+
+/-- `load (state after a sender group b) = (b.runid, b.offset, b.db)`:
+    whatever target the group lands on, provided it is the newest of its source (offsets of earlier sessions in
+    other dbs are smaller and parse), the session has stamped the db (in this group or an earlier one) and the
+    source's run id is known. Field names, decimal rendering and the version value written by the sender are
+    exactly what the loader looks up, parses and accepts. -/
+theorem writer_reader_agree (st : State) (hwf : WF st) (b : Batch) (hdb : validDb b.db)
+    (hoff : -1 < b.offset ∧ b.offset < two63) (hrun : b.runid ≠ unknownRunId)
+    (hstamp : b.stamp = true ∨ Stamped b.src b.runid st b.db)
+    (hnew : ∀ x, x ≠ b.db → ∃ f, own b.src st x = some f ∧ f.offset < b.offset)
+    (r : Ret) (s : State) (h : LoadRun exactMatch b.src (applyBatch st b) (r, s)) :
+    r = .ok b.runid b.offset b.db := by
+  have hwf' := wf_applyBatch st b hdb hwf
+  have hown := batch_own st b ⟨by unfold two63 at *; omega, hoff.2⟩ hstamp
+  have hn : Newest b.src (applyBatch st b) b.db ⟨b.runid, b.offset, Generated.C14.fcvCheckpointCurrent⟩ := by
+    refine ⟨hown, hoff.1, ?_⟩
+    intro x hx
+    rw [own_applyBatch_other b.src st b x hx]
+    exact hnew x hx
+  have := picks_newest b.src _ s hwf' b.db _ hn (current_not_refused _ _) r h
+  simpa [reportedDb, hrun] using this
+
+/-! ### 9. D16 — the pinned matching (`HasPrefix` + `Contains`) does not ignore other sources -/
+
+def addrA : Bytes := [49, 48, 46, 48, 46, 48, 46, 49, 58, 54, 51, 55, 57]        -- "10.0.0.1:6379"
+def addrB : Bytes := addrA ++ [48]                                              -- "10.0.0.1:63790"
+
+/-- a target holding only a checkpoint of the OTHER source `…:63790` (run id "rb", offset 500) -/
+def d16Target : State :=
+  [(0, ⟨[(runIdField addrB, [114, 98]), (versionField addrB, [49]), (offsetField addrB, [53, 48, 48])], 0⟩)]
+
+/-- pinned tree: source `…:6379` resumes from the checkpoint of `…:63790`; repaired tree: it reports "none" -/
+theorem counterexample_prefix_address :
+    (loadFrom pinnedMatch addrA d16Target [0] [0]).1 = .ok [114, 98] 500 0 ∧
+    (loadFrom exactMatch addrA d16Target [0] [0]).1 = .ok [] (-1) 0 ∧
+    parseKeyspace (infoKeyspace d16Target) = .ok [0] := by decide +kernel
+
+/-- … and with an own, older checkpoint in another db the pinned tree even deletes it as "stale" -/
+def d16Target2 : State :=
+  [(0, ⟨[(runIdField addrA, [114, 97]), (versionField addrA, [49]), (offsetField addrA, [49, 48, 48])], 0⟩),
+   (1, ⟨[(runIdField addrB, [114, 98]), (versionField addrB, [49]), (offsetField addrB, [53, 48, 48])], 0⟩)]
+
+theorem counterexample_prefix_address_clears_own :
+    (loadFrom pinnedMatch addrA d16Target2 [0, 1] [0, 1]).1 = .ok [114, 98] 500 1 ∧
+    fieldOf (offsetField addrA) (hashOf (loadFrom pinnedMatch addrA d16Target2 [0, 1] [0, 1]).2 0) = none ∧
+    (loadFrom exactMatch addrA d16Target2 [0, 1] [0, 1]).1 = .ok [114, 97] 100 0 := by decide +kernel
+
+/-- an address that contains one of the words: the pinned tree takes every field for every kind and fails -/
+def addrK : Bytes := [111, 102, 102, 115, 101, 116, 46, 120, 58, 49]             -- "offset.x:1"
+theorem counterexample_keyword_address :
+    fetchCheckpoint pinnedMatch addrK
+      [(runIdField addrK, [97, 98]), (versionField addrK, [49]), (offsetField addrK, [52, 50])] = none ∧
+    fetchCheckpoint exactMatch addrK
+      [(runIdField addrK, [97, 98]), (versionField addrK, [49]), (offsetField addrK, [52, 50])] = some ⟨[97, 98], 42, 1⟩ := by
+  decide +kernel
+
+/-! ### 10. equal offsets in two dbs: Go's map order decides (hence `NoTies`) -/
+
+def tieTarget : State :=
+  [(0, ⟨[(runIdField addrA, [114, 48]), (versionField addrA, [49]), (offsetField addrA, [55])], 0⟩),
+   (3, ⟨[(runIdField addrA, [114, 51]), (versionField addrA, [49]), (offsetField addrA, [55])], 0⟩)]
+
+theorem counterexample_tie :
+    ∃ r1 r2, LoadRun exactMatch addrA tieTarget r1 ∧ LoadRun exactMatch addrA tieTarget r2 ∧
+      r1.1 = .ok [114, 48] 7 0 ∧ r2.1 = .ok [114, 51] 7 3 := by
+  have hk : parseKeyspace (infoKeyspace tieTarget) = .ok [0, 3] := by decide +kernel
+  refine ⟨loadFrom exactMatch addrA tieTarget [0, 3] [0, 3], loadFrom exactMatch addrA tieTarget [3, 0] [0, 3], ?_, ?_, ?_, ?_⟩
+  · unfold LoadRun; rw [hk]; exact ⟨[0, 3], [0, 3], List.Perm.refl _, List.Perm.refl _, rfl⟩
+  · unfold LoadRun; rw [hk]; exact ⟨[3, 0], [0, 3], List.Perm.swap 0 3 [], List.Perm.refl _, rfl⟩
+  · decide +kernel
+  · decide +kernel
+
+/-- A whole sender session. Start from any well-formed target on which every checkpoint of `a` parses and lies
+    at or below `lo` (the offset the session starts from); let the session flush any number of groups into any
+    dbs with increasing offsets, interleaved with arbitrary foreign events (other sources, data, clears of
+    others); if it flushed at least one group, a restart reads back exactly the last one:
+    (session run id, offset of the last group, db of the last group). -/
+theorem writer_reader_agree_session (a runid : Bytes) (hrun : runid ≠ unknownRunId) (st : State) (hwf : WF st)
+    (lo : Int) (hlo : -1 ≤ lo) (hbelow : ∀ x, ∃ f, own a st x = some f ∧ f.offset ≤ lo)
+    (evs : List SessEv) (hok : EventsOk a lo evs) (g : Group)
+    (hlast : (runSession a runid evs ⟨st, [], none⟩).last = some g)
+    (r : Ret) (s : State) (h : LoadRun exactMatch a (runSession a runid evs ⟨st, [], none⟩).st (r, s)) :
+    r = .ok runid g.offset g.db := by
+  have hinv0 : SessInv a runid lo ⟨st, [], none⟩ :=
+    ⟨hwf, (fun x hx => by cases hx), hbelow, hlo, (fun g hg => by cases hg)⟩
+  obtain ⟨lo', hinv⟩ := sessInv_run a runid evs lo _ hinv0 hok
+  obtain ⟨_, hn⟩ := hinv.newest g hlast
+  have := picks_newest a _ s hinv.wf g.db _ hn (current_not_refused _ _) r h
+  simpa [reportedDb, hrun] using this
+
+/-- Why `writer_reader_agree` needs "the group's offset exceeds the older own offsets": the policy is
+    "greatest offset", not "latest write". A checkpoint (run id "ra", offset 100) left in db 0 by an earlier run
+    and a group of a NEW run (run id "rn", offset 40 — the source was replaced, its offsets restarted) in db 1:
+    the loader returns the stale one (and the caller falls back to a full sync because the run id is unknown
+    to the source). This is the stated policy of the property, recorded here as a limitation. -/
+theorem stale_greater_offset_wins :
+    let st : State := [(0, ⟨[(runIdField addrA, [114, 97]), (versionField addrA, [49]), (offsetField addrA, [49, 48, 48])], 0⟩)]
+    let st' := applyBatch st ⟨addrA, 1, [114, 110], 40, true⟩
+    parseKeyspace (infoKeyspace st') = .ok [0, 1] ∧
+    (loadFrom exactMatch addrA st' [0, 1] [0, 1]).1 = .ok [114, 97] 100 0 ∧
+    (loadFrom exactMatch addrA st' [1, 0] [1, 0]).1 = .ok [114, 97] 100 0 := by decide +kernel
+
+/-! ### 11. HGETALL order, unreachability of ties inside a session -/
+
+theorem lookup_eq_some_iff (h : Hash) (hwf : HashWF h) (g v : Bytes) : h.lookup g = some v ↔ (g, v) ∈ h := by
+  induction h with
+  | nil => simp
+  | cons p rest ih =>
+    obtain ⟨k, w⟩ := p
+    have hnd : k ∉ rest.map Prod.fst ∧ HashWF rest := by simpa [HashWF] using hwf
+    by_cases e : g = k
+    · subst e
+      simp only [List.lookup_cons, beq_self_eq_true, Option.some.injEq, List.mem_cons, Prod.mk.injEq, true_and]
+      constructor
+      · intro h1; exact Or.inl h1.symm
+      · rintro (h1 | h1)
+        · exact h1.symm
+        · exact absurd (List.mem_map.mpr ⟨(g, v), h1, rfl⟩) hnd.1
+    · have hb : (g == k) = false := by simpa using e
+      simp only [List.lookup_cons, hb, ih hnd.2, List.mem_cons, Prod.mk.injEq, e, false_and, false_or]
+
+/-- Redis does not specify the order of HGETALL: any order of the same hash gives the same result -/
+theorem fetch_order_irrelevant (a : Bytes) (h h' : Hash) (hwf : HashWF h) (hp : h.Perm h') :
+    fetchCheckpoint exactMatch a h' = fetchCheckpoint exactMatch a h := by
+  have hwf' : HashWF h' := (hp.map Prod.fst).nodup_iff.mp hwf
+  rw [fetch_eq_ownCkpt a h hwf, fetch_eq_ownCkpt a h' hwf']
+  have hl : ∀ g, fieldOf g h' = fieldOf g h := by
+    intro g
+    unfold fieldOf
+    cases e : h.lookup g with
+    | some v =>
+      exact (lookup_eq_some_iff h' hwf' g v).mpr (hp.mem_iff.mp ((lookup_eq_some_iff h hwf g v).mp e))
+    | none =>
+      cases e' : h'.lookup g with
+      | none => rfl
+      | some v =>
+        have := (lookup_eq_some_iff h hwf g v).mpr (hp.mem_iff.mpr ((lookup_eq_some_iff h' hwf' g v).mp e'))
+        rw [e] at this; cases this
+  have he : h'.isEmpty = h.isEmpty := by
+    cases h with
+    | nil => rw [hp.nil_eq]
+    | cons p ps =>
+      cases h' with
+      | nil => exact absurd hp.symm.nil_eq (by simp)
+      | cons _ _ => rfl
+  unfold ownCkpt
+  rw [he, hl, hl, hl]
+
+/-- after any session that flushed a group, no two dbs hold the same usable offset of `a`: the order-dependent
+    situation of `counterexample_tie` cannot be produced by the sender within a session -/
+theorem session_has_no_ties (a runid : Bytes) (st : State) (hwf : WF st)
+    (lo : Int) (hlo : -1 ≤ lo) (hbelow : ∀ x, ∃ f, own a st x = some f ∧ f.offset ≤ lo)
+    (evs : List SessEv) (hok : EventsOk a lo evs) (g : Group)
+    (hlast : (runSession a runid evs ⟨st, [], none⟩).last = some g) (d : Int) (f : Fetched) :
+    own a (runSession a runid evs ⟨st, [], none⟩).st d = some f → d ≠ g.db → f.offset < g.offset := by
+  have hinv0 : SessInv a runid lo ⟨st, [], none⟩ :=
+    ⟨hwf, (fun x hx => by cases hx), hbelow, hlo, (fun g hg => by cases hg)⟩
+  obtain ⟨lo', hinv⟩ := sessInv_run a runid evs lo _ hinv0 hok
+  obtain ⟨_, hn⟩ := hinv.newest g hlast
+  intro ho hd
+  obtain ⟨f', hf', hlt⟩ := hn.2.2 d hd
+  rw [ho] at hf'; cases hf'; exact hlt
+
+/-- More generally: in every history in which `a`'s recorded offsets only grow (each group of `a` carries an
+    offset above all offsets of `a` present — a sender's offsets increase and a resumed sender continues above the
+    offset it loaded — and nobody else writes `a`'s offset field; removals, clears, other sources, data and
+    garbage in other fields are unrestricted) no tie exists, so the loader's outcome never depends on Go's map
+    order. Ties need a source whose offsets went backwards (replaced master) — the explicit hypothesis `NoTies`. -/
+theorem monotone_history_has_no_ties (a : Bytes) (st : State) (h : MonoReachable a st) : NoTies a st :=
+  noTies_of_distinct (monoReachable_distinct a st h)
+
+theorem deterministic_monotone (a : Bytes) (st : State) (h : MonoReachable a st) (r1 r2 : Ret × State)
+    (h1 : LoadRun exactMatch a st r1) (h2 : LoadRun exactMatch a st r2) : r1 = r2 :=
+  deterministic a st (reachable_wf st (monoReachable_reachable a st h)) (monotone_history_has_no_ties a st h) r1 r2 h1 h2
+
+/-! ### 12. the same statements for reachable targets; non-vacuity -/
+
+theorem picks_max_own_reachable (a : Bytes) (st st' : State) (hr : Reachable st) (runid : Bytes) (off db : Int)
+    (h : LoadRun exactMatch a st (.ok runid off db, st')) :
+    (∀ x f, own a st x = some f → f.offset ≤ off) ∧ -1 ≤ off ∧
+    ((off = -1 ∧ runid = [] ∧ db = 0) ∨
+     (∃ x f, own a st x = some f ∧ f.offset = off ∧ off > -1 ∧ runid = f.runid ∧ db = reportedDb f x)) :=
+  picks_max_own a st st' (reachable_wf st hr) runid off db h
+
+theorem stale_removed_reachable (a : Bytes) (st s : State) (hr : Reachable st) (runid : Bytes) (off db : Int)
+    (h : LoadRun exactMatch a st (.ok runid off db, s)) :
+    (∀ x, x ≠ db → fieldOf (offsetField a) (hashOf s x) = none ∧ fieldOf (runIdField a) (hashOf s x) = none) ∧
+    hashOf s db = hashOf st db ∧
+    s.map (fun p => (p.1, p.2.others)) = st.map (fun p => (p.1, p.2.others)) :=
+  stale_removed a st s (reachable_wf st hr) runid off db h
+
+/-- a reachable target with two sources whose addresses extend one another, a partial checkpoint, an old-version
+    checkpoint, data and a clear -/
+def sampleHistory : List Op :=
+  [.batch ⟨addrA, 0, [114, 97], 100, true⟩, .batch ⟨addrB, 0, [114, 98], 500, true⟩, .data 2 3,
+   .oldBatch addrA 1 (some [111, 108, 100]) 50, .batch ⟨addrA, 3, [114, 97], 180, true⟩, .hdel 3 (runIdField addrB),
+   .clear addrB 0 [0, 1, 2, 3]]
+
+def sampleTarget : State := sampleHistory.foldl applyOp []
+
+example : Reachable sampleTarget := by
+  unfold sampleTarget sampleHistory
+  simp only [List.foldl]
+  repeat (first | exact Reachable.empty | (refine Reachable.step _ _ ?_ (by simp [Op.Valid, validDb, maxDb, two63])))
+
+/-- on it source A's newest checkpoint is the one in db 3, source B's the one in db 0 -/
+example : Newest addrA sampleTarget 3 ⟨[114, 97], 180, 1⟩ := by
+  refine ⟨by decide +kernel, by decide, ?_⟩
+  intro d' hne
+  by_cases h0 : d' = 0
+  · subst h0; exact ⟨⟨[114, 97], 100, 1⟩, by decide +kernel, by decide⟩
+  · by_cases h1 : d' = 1
+    · subst h1; exact ⟨⟨[111, 108, 100], 50, 0⟩, by decide +kernel, by decide⟩
+    · by_cases h2 : d' = 2
+      · subst h2; exact ⟨⟨[], -1, -1⟩, by decide +kernel, by decide⟩
+      · refine ⟨⟨[], -1, -1⟩, ?_, by decide⟩
+        apply own_of_empty
+        apply hashOf_not_mem
+        have : sampleTarget.map Prod.fst = [0, 2, 1, 3] := by decide +kernel
+        rw [this]; simp [h0, h1, h2, hne]
+
+example : (loadFrom exactMatch addrA sampleTarget [0, 2, 1, 3] [3, 1, 2, 0]).1 = .ok [114, 97] 180 3 := by decide +kernel
+example : (loadFrom exactMatch addrB sampleTarget [3, 1, 2, 0] [0, 2, 1, 3]).1 = .ok [114, 98] 500 0 := by decide +kernel
+example : (loadFrom pinnedMatch addrA sampleTarget [0, 2, 1, 3] [3, 1, 2, 0]).1 = .ok [114, 98] 500 0 := by decide +kernel
+
+/-- a session satisfying the hypotheses of `writer_reader_agree_session` -/
+example : EventsOk addrA 180 [.group ⟨3, 200⟩, .other (.batch ⟨addrB, 3, [114, 98], 9999, true⟩), .group ⟨0, 260⟩,
+    .other (.data 0 5), .group ⟨3, 300⟩] := by
+  simp [EventsOk, validDb, maxDb, two63, Op.Valid, Op.Foreign, addrA, addrB]
+
+/-- a history with growing offsets (hypotheses of `monotone_history_has_no_ties` are satisfiable) -/
+example : MonoReachable addrA
+    (applyOp (applyOp (applyOp [] (.batch ⟨addrA, 2, [114, 97], 100, true⟩)) (.batch ⟨addrB, 2, [114, 98], 100, true⟩))
+      (.hdel 2 (versionField addrA))) := by
+  refine MonoReachable.step _ _ (MonoReachable.step _ _ (MonoReachable.step _ _ MonoReachable.empty ?_ ?_) ?_ ?_) ?_ ?_
+  · simp [Op.Valid, validDb, maxDb]
+  · intro _
+    refine ⟨by decide, by decide, ?_⟩
+    intro d o h
+    simp only [offsetOf, hashOf, List.find?_nil, fieldOf, List.lookup_nil, numField, Option.some.injEq] at h
+    show o < 100
+    omega
+  · simp [Op.Valid, validDb, maxDb]
+  · intro h; exact absurd h (by decide)
+  · simp [Op.Valid, validDb, maxDb]
+  · trivial
+
 end RSVerif.Properties.C14
